@@ -3,6 +3,7 @@ import Qsx.Model.Verdict
 import Qsx.Model.LinAlg
 import Qsx.Model.Xform
 import Qsx.Model.Round
+import Qsx.Model.SolFile
 import Qsx.Model.Multi
 import Qsx.Model.Driver
 import Qsx.Model.Num
@@ -405,6 +406,23 @@ def answer (cx : Ctx) (toks : List String) : Ctx × List String :=
       let prs : Array (Rat × Rat) ← pMany n (do let q ← pRat cx; let d ← pRat cx; pure (q, d))
       let bad := (List.range n).filter fun i => !(Qsx.Round.convOK (prs.getD i (0, 0)).1 (prs.getD i (0, 0)).2 p)
       pure [s!"conv {n - bad.length} {bad.length}" ++ bad.foldl (fun s i => s ++ " " ++ toString i) ""]).run' rest
+    (cx, r.getD ["bad-op"])
+  | "solsec" :: rest =>
+    -- C19: solsec n hexname*n k {hexname val}*k : the reader's side of one solution-file section
+    let r : Option (List String) := (do
+      let n ← pNat
+      let names ← pMany n pName
+      let k ← pNat
+      let ents ← pMany k (do let nm ← pName; let v ← pRat cx; pure (nm.getD "", v))
+      let vec := Qsx.SolFile.decodeSec (names.toList.map (fun (o : Option String) => o.getD "")) ents.toList
+      pure [fmtArr cx "vec" vec.toArray]).run' rest
+    (cx, r.getD ["bad-op"])
+  | "ftype" :: rest =>
+    let r : Option (List String) := (do
+      let f ← pNat; let n ← pNat
+      let parts ← pMany n pName
+      let t := Qsx.SolFile.ftypeOf (f != 0) (parts.toList.map (fun (o : Option String) => o.getD ""))
+      pure [if t == Qsx.SolFile.FType.lp then "ftype lp" else "ftype mps"]).run' rest
     (cx, r.getD ["bad-op"])
   | "tointernal" :: rest =>
     let r : Option (List String) := (do
